@@ -314,6 +314,14 @@ func coerceString(value interface{}) interface{} {
 		}
 		return *v
 	}
+	// numbers decoded from JSON arrive as float64: render them as plain decimals
+	// ("1234567", not "1.234567e+06"), as the same value written as a literal is
+	switch v := value.(type) {
+	case float64:
+		return strconv.FormatFloat(v, 'f', -1, 64)
+	case float32:
+		return strconv.FormatFloat(float64(v), 'f', -1, 32)
+	}
 	return fmt.Sprintf("%v", value)
 }
 
